@@ -141,27 +141,262 @@ func seqStr(s []int64) string {
 	return "(" + strings.Join(p, ",") + ")"
 }
 
-// quadGuard: block is only reached when <list size> == 4; size must come from lastReadListSize.
-func quadGuard(conds []Lit) bool {
-	for _, c := range conds {
-		x, k, eq, ok := c.EqConst()
-		if !ok || !eq {
-			continue
-		}
-		if v, isInt := ssau.ConstInt(k); !isInt || v != 4 {
-			continue
-		}
-		if len(SliceFind(x, func(v ssa.Value) bool {
-			_, f := LoadedField(v)
-			return f != nil && f.Name() == "lastReadListSize"
-		})) > 0 {
-			return true
-		}
-	}
-	return false
+// fanCtx is the frame in which the fan of one face reader is decided: the face
+// reader itself, or an in-package helper it hands the list buffers to.
+type fanCtx struct {
+	fn      *ssa.Function
+	via     string                         // "" or "via helper <name>"
+	buf     [2]ssa.Value                   // index list buffer, texture-coordinate list buffer (in fn's terms)
+	results [2][]ssa.Value                 // the values returned for the two lists
+	sizeDep func(v ssa.Value) bool         // v depends on the size of the index list (or on the quad flag)
+	isQuad  func(l Lit) (known, quad bool) // literal says: this face is / is not a quad
 }
 
-// LAY8 decides the quad fan of both face readers.
+func dependsOnListSize(v ssa.Value) bool {
+	return len(SliceFind(v, func(x ssa.Value) bool {
+		_, f := LoadedField(x)
+		return f != nil && f.Name() == "lastReadListSize"
+	})) > 0
+}
+
+// quadValue: v is `size == 4` (size derived from lastReadListSize); neg for `size != 4`.
+func quadValue(v ssa.Value, sizeDep func(ssa.Value) bool) (isQuadTest bool, neg bool) {
+	l := normLit(v, true)
+	x, k, eq, ok := l.EqConst()
+	if !ok {
+		return false, false
+	}
+	if n, isInt := ssau.ConstInt(k); !isInt || n != 4 || !sizeDep(x) {
+		return false, false
+	}
+	return true, !eq
+}
+
+// webAppendsBase collects the appends that build v and the values the web starts from.
+func webAppendsBase(v ssa.Value) (apps []*ssa.Call, base []ssa.Value) {
+	seen := map[ssa.Value]bool{}
+	var walk func(v ssa.Value)
+	walk = func(v ssa.Value) {
+		if v == nil || seen[v] {
+			return
+		}
+		seen[v] = true
+		switch x := v.(type) {
+		case *ssa.Phi:
+			for _, ed := range x.Edges {
+				walk(ed)
+			}
+			return
+		case *ssa.Call:
+			if ssau.Builtin(x) == "append" {
+				apps = append(apps, x)
+				walk(x.Common().Args[0])
+				return
+			}
+		}
+		base = append(base, v)
+	}
+	walk(v)
+	sort.Slice(apps, func(i, j int) bool { return apps[i].Pos() < apps[j].Pos() })
+	return
+}
+
+// helperFrame binds an in-package helper that receives the accumulator and the list
+// buffer of one web and returns the extended accumulator.
+func helperFrame(c *fanCtx, web int) *fanCtx {
+	// the web's value in c.fn comes (through phis) from result k of a static call
+	var call *ssa.Call
+	k := 0
+	callerWeb := map[ssa.Value]bool{}
+	for _, r := range c.results[web] {
+		seen := map[ssa.Value]bool{}
+		var walk func(v ssa.Value)
+		walk = func(v ssa.Value) {
+			if v == nil || seen[v] {
+				return
+			}
+			seen[v] = true
+			callerWeb[v] = true
+			switch x := v.(type) {
+			case *ssa.Phi:
+				for _, ed := range x.Edges {
+					walk(ed)
+				}
+			case *ssa.Extract:
+				if cl, ok := x.Tuple.(*ssa.Call); ok {
+					call, k = cl, x.Index
+				}
+			case *ssa.Call:
+				if ssau.Builtin(x) == "" {
+					call, k = x, 0
+				}
+			}
+		}
+		walk(r)
+	}
+	if call == nil {
+		return nil
+	}
+	g := call.Common().StaticCallee()
+	if g == nil || g.Blocks == nil || g.Pkg == nil || g.Pkg.Pkg.Path() != PlyPath || call.Common().IsInvoke() {
+		return nil
+	}
+	args := call.Common().Args
+	if len(args) != len(g.Params) {
+		return nil
+	}
+	h := &fanCtx{fn: g, via: "via helper " + g.Name()}
+	accParam := -1
+	for i, a := range args {
+		for w := 0; w < 2; w++ {
+			if c.buf[w] != nil && a == c.buf[w] {
+				h.buf[w] = g.Params[i]
+			}
+		}
+		if callerWeb[a] {
+			accParam = i
+		}
+	}
+	if h.buf[web] == nil || accParam < 0 {
+		return nil
+	}
+	// parameters that carry the list size / the quad flag
+	sizeParam := map[ssa.Value]bool{}
+	quadParam := map[ssa.Value]bool{} // value: negated?
+	quadNeg := map[ssa.Value]bool{}
+	for i, a := range args {
+		if isQ, neg := quadValue(a, c.sizeDep); isQ {
+			quadParam[g.Params[i]] = true
+			quadNeg[g.Params[i]] = neg
+			sizeParam[g.Params[i]] = true
+		} else if c.sizeDep(a) {
+			sizeParam[g.Params[i]] = true
+		}
+	}
+	h.sizeDep = func(v ssa.Value) bool {
+		return len(SliceFind(v, func(x ssa.Value) bool { return sizeParam[x] })) > 0
+	}
+	h.isQuad = func(l Lit) (bool, bool) {
+		if quadParam[l.V] {
+			return true, l.Pos != quadNeg[l.V]
+		}
+		if isQ, _ := quadValue(l.V, h.sizeDep); isQ {
+			_, _, eq, _ := l.EqConst()
+			return true, eq
+		}
+		return false, false
+	}
+	ssau.AllInstrs(g, func(in ssa.Instruction) {
+		if r, ok := in.(*ssa.Return); ok && k < len(r.Results) {
+			h.results[web] = append(h.results[web], r.Results[k])
+		}
+	})
+	// the helper must extend the accumulator it was given
+	for _, r := range h.results[web] {
+		_, bs := webAppendsBase(r)
+		for _, bv := range bs {
+			if bv != ssa.Value(g.Params[accParam]) {
+				if k2, isC := bv.(*ssa.Const); isC && k2.IsNil() {
+					continue
+				}
+				return nil
+			}
+		}
+	}
+	return h
+}
+
+// decideFan decides one web (0 indices, 1 texture coordinates) in frame c.
+func decideFan(e *Env, c *fanCtx, web int) (badMsg string, facts []string, pos token.Pos, found bool) {
+	intMode := web == 0
+	buf := c.buf[web]
+	var apps []*ssa.Call
+	seen := map[*ssa.Call]bool{}
+	for _, r := range c.results[web] {
+		as, _ := webAppendsBase(r)
+		for _, a := range as {
+			if !seen[a] {
+				seen[a] = true
+				apps = append(apps, a)
+			}
+		}
+	}
+	if len(apps) == 0 {
+		return "", nil, token.NoPos, false
+	}
+	pos = apps[0].Pos()
+	var tri, quad []*ssa.Call
+	for _, a := range apps {
+		isQ := false
+		for _, l := range CondsAt(a.Block()) {
+			if known, q := c.isQuad(l); known && q {
+				isQ = true
+			}
+		}
+		if isQ {
+			quad = append(quad, a)
+		} else {
+			tri = append(tri, a)
+		}
+	}
+	switch {
+	case len(tri) != 1:
+		badMsg = fmt.Sprintf("%d unconditional appends per face (expected one: the first triangle)", len(tri))
+	case len(quad) != 1:
+		badMsg = fmt.Sprintf("%d appends under `list size == 4` (expected one: the second fan triangle); a quad would contribute %d triangle(s)", len(quad), 1+len(quad))
+	default:
+		ts, why := appendedCorners(tri[0], buf, intMode)
+		qs, why2 := appendedCorners(quad[0], buf, intMode)
+		switch {
+		case why != "":
+			badMsg = "first triangle: " + why
+		case why2 != "":
+			badMsg = "second triangle: " + why2
+		case seqStr(ts) != "(0,1,2)":
+			badMsg = "every face contributes corners " + seqStr(ts) + ", expected (0,1,2)"
+		case seqStr(qs) != "(0,2,3)":
+			badMsg = "a quad's second triangle is " + seqStr(qs) + ", the fan over (0,1,2,3) is (0,1,2),(0,2,3)"
+		case !tri[0].Block().Dominates(quad[0].Block()):
+			badMsg = "the second fan triangle can be emitted without / before the first"
+		}
+		if badMsg == "" && !flowsInto(tri[0], quad[0].Common().Args[0]) {
+			badMsg = "the second fan triangle is not appended after the first"
+		}
+		// the first triangle must not depend on the face being a quad or on the list size
+		// (other than the 3..4 range check)
+		if badMsg == "" {
+			for _, l := range CondsAt(tri[0].Block()) {
+				if known, _ := c.isQuad(l); known {
+					badMsg = "the first triangle is appended only for one of the two face sizes"
+					continue
+				}
+				if !c.sizeDep(l.V) || isLoopExitCond(e, c.fn, l, tri[0].Block()) {
+					continue
+				}
+				b, isB := l.V.(*ssa.BinOp)
+				okRange := false
+				if isB {
+					if k, isK := ssau.ConstInt(b.Y); isK {
+						// the surviving side of `size < 3 || size > 4`
+						okRange = (b.Op == token.LSS && k == 3 && !l.Pos) || (b.Op == token.GTR && k == 4 && !l.Pos) ||
+							(b.Op == token.GEQ && k == 3 && l.Pos) || (b.Op == token.LEQ && k == 4 && l.Pos)
+					}
+				}
+				if !okRange {
+					badMsg = "the first triangle is appended under a condition on the list size other than the 3..4 range check"
+				}
+			}
+		}
+		facts = append(facts, "first "+seqStr(ts), "quad adds "+seqStr(qs))
+	}
+	if c.via != "" {
+		facts = append(facts, c.via)
+	}
+	return badMsg, facts, pos, true
+}
+
+// LAY8 decides the quad fan of both face readers, following the tessellation into
+// an in-package helper that receives the accumulator and the list buffer.
 func LAY8(e *Env) {
 	const rule = "LAY-8"
 	var fns []*ssa.Function
@@ -174,8 +409,7 @@ func LAY8(e *Env) {
 	fns = append(fns, append(bad, good...)...)
 	for _, fn := range fns {
 		name := e.Name(fn)
-		// the two list buffers
-		var intBuf, fltBuf ssa.Value
+		c := &fanCtx{fn: fn}
 		ssau.AllInstrs(fn, func(in ssa.Instruction) {
 			cl, ok := in.(*ssa.Call)
 			if !ok {
@@ -185,90 +419,55 @@ func LAY8(e *Env) {
 			if callee == nil || callee.Pkg() == nil || callee.Pkg().Path() != PlyPath || ssau.RecvNamed(callee) == nil {
 				return
 			}
-			rn := ssau.RecvNamed(callee).Obj().Name()
-			if !strings.HasPrefix(rn, "list") {
+			if !strings.HasPrefix(ssau.RecvNamed(callee).Obj().Name(), "list") {
 				return
 			}
 			switch callee.Name() {
 			case "Int":
-				intBuf = Arg(cc, callee, 0)
+				c.buf[0] = Arg(cc, callee, 0)
 			case "Float64":
-				fltBuf = Arg(cc, callee, 0)
+				c.buf[1] = Arg(cc, callee, 0)
 			}
 		})
-		var rets []*ssa.Return
 		ssau.AllInstrs(fn, func(in ssa.Instruction) {
 			if r, ok := in.(*ssa.Return); ok && len(r.Results) >= 2 {
 				if k, isC := r.Results[len(r.Results)-1].(*ssa.Const); isC && k.IsNil() {
-					rets = append(rets, r)
+					c.results[0] = append(c.results[0], r.Results[0])
+					c.results[1] = append(c.results[1], r.Results[1])
 				}
 			}
 		})
-		if intBuf == nil || len(rets) == 0 {
+		c.sizeDep = dependsOnListSize
+		c.isQuad = func(l Lit) (bool, bool) {
+			if isQ, _ := quadValue(l.V, dependsOnListSize); isQ {
+				_, _, eq, _ := l.EqConst()
+				return true, eq
+			}
+			// a local boolean `isQuad := size == 4`
+			return false, false
+		}
+		if c.buf[0] == nil || len(c.results[0]) == 0 {
 			e.Undecide(fn, rule, name, fn.Pos(), "index list buffer or success return not found")
 			continue
 		}
 		for web := 0; web < 2; web++ {
-			label, buf, intMode := "/indices", intBuf, true
+			label := "/indices"
 			if web == 1 {
-				label, buf, intMode = "/texcoords", fltBuf, false
+				label = "/texcoords"
 			}
 			construct := name + label
-			if buf == nil {
+			if c.buf[web] == nil {
 				e.Undecide(fn, rule, construct, fn.Pos(), "texture-coordinate list buffer not found")
 				continue
 			}
-			var apps []*ssa.Call
-			seen := map[*ssa.Call]bool{}
-			for _, r := range rets {
-				for _, a := range webAppends(r.Results[web]) {
-					if !seen[a] {
-						seen[a] = true
-						apps = append(apps, a)
-					}
+			badMsg, facts, pos, found := decideFan(e, c, web)
+			if !found {
+				if h := helperFrame(c, web); h != nil {
+					badMsg, facts, pos, found = decideFan(e, h, web)
 				}
 			}
-			var tri, quad []*ssa.Call
-			for _, a := range apps {
-				if quadGuard(CondsAt(a.Block())) {
-					quad = append(quad, a)
-				} else {
-					tri = append(tri, a)
-				}
-			}
-			badMsg := ""
-			var facts []string
-			switch {
-			case len(tri) != 1:
-				badMsg = fmt.Sprintf("%d unconditional appends per face (expected one: the first triangle)", len(tri))
-			case len(quad) != 1:
-				badMsg = fmt.Sprintf("%d appends under `list size == 4` (expected one: the second fan triangle); a quad would contribute %d triangle(s)", len(quad), 1+len(quad))
-			default:
-				ts, why := appendedCorners(tri[0], buf, intMode)
-				qs, why2 := appendedCorners(quad[0], buf, intMode)
-				switch {
-				case why != "":
-					badMsg = "first triangle: " + why
-				case why2 != "":
-					badMsg = "second triangle: " + why2
-				case seqStr(ts) != "(0,1,2)":
-					badMsg = "every face contributes corners " + seqStr(ts) + ", expected (0,1,2)"
-				case seqStr(qs) != "(0,2,3)":
-					badMsg = "a quad's second triangle is " + seqStr(qs) + ", the fan over (0,1,2,3) is (0,1,2),(0,2,3)"
-				case !tri[0].Block().Dominates(quad[0].Block()):
-					badMsg = "the second fan triangle can be emitted without / before the first"
-				}
-				// the quad append must extend the triangle append's result
-				if badMsg == "" {
-					if !flowsInto(tri[0], quad[0].Common().Args[0]) {
-						badMsg = "the second fan triangle is not appended after the first"
-					}
-				}
-				facts = append(facts, "first "+seqStr(ts), "quad adds "+seqStr(qs))
-			}
-			pos := fn.Pos()
-			if len(apps) > 0 {
-				pos = apps[0].Pos()
+			if !found {
+				badMsg, pos = "0 appends per face: the face lists are never collected (or are collected by code this rule cannot follow)", fn.Pos()
 			}
 			if badMsg != "" {
 				e.Violate(fn, rule, construct, pos, badMsg+": quads are tessellated differently from what the file describes", facts...)
